@@ -364,13 +364,14 @@ func (e *ssEnv) apply(op ssOp) (err error) {
 
 // ---------------------------------------------------------------- snapshot of what the call depends on
 type ssValSnap struct {
-	Found   bool   `json:"found"`
-	Tokens  string `json:"tokens"`
-	Shares  string `json:"shares"` // LegacyDec as its integer (value * 10^18)
-	Status  int    `json:"status"` // 1 unbonded 2 unbonding 3 bonded
-	Jailed  bool   `json:"jailed"`
-	MinSelf string `json:"min_self"`
-	Comm    string `json:"commission"` // accumulated commission, truncated
+	Found    bool   `json:"found"`
+	Tokens   string `json:"tokens"`
+	Shares   string `json:"shares"` // LegacyDec as its integer (value * 10^18)
+	Status   int    `json:"status"` // 1 unbonded 2 unbonding 3 bonded
+	Jailed   bool   `json:"jailed"`
+	MinSelf  string `json:"min_self"`
+	Comm     string `json:"commission"`                // accumulated commission, truncated
+	CommDust bool   `json:"commission_dust,omitempty"` // accumulated commission is not zero but below one unit
 }
 
 type ssEntry struct {
@@ -439,6 +440,7 @@ func (e *ssEnv) snap(signer int) ssSnap {
 			c := e.App.DistrKeeper.GetValidatorAccumulatedCommission(e.Ctx, e.vals[v]).Commission
 			t, _ := c.TruncateDecimal()
 			vs.Comm = t.AmountOf(utils.BaseDenom).String()
+			vs.CommDust = !c.IsZero() && t.IsZero()
 		}
 		s.Vals = append(s.Vals, vs)
 		sh, tk := "", "0"
@@ -713,9 +715,9 @@ type ssDiffEntry struct {
 	Store   string `json:"store"`
 	FullKey string `json:"-"`
 	Key     string `json:"key"`
-	A     string `json:"eth"`    // value after the Ethereum transaction ("-" = absent)
-	B     string `json:"native"` // value after the native message
-	What  string `json:"what,omitempty"`
+	A       string `json:"eth"`    // value after the Ethereum transaction ("-" = absent)
+	B       string `json:"native"` // value after the native message
+	What    string `json:"what,omitempty"`
 }
 
 func ssHex(b []byte, present bool) string {
@@ -799,6 +801,17 @@ func (e *ssEnv) storeDiff(a, b *ssEnv, signer sdk.AccAddress) []ssDiffEntry {
 // of the reward).  The commit then rewrites the signer's bank balance with the mirrored value.
 func ssClass(in ssInput, pre ssSnap, r ssResolved) string {
 	c := in.Call
+	if c.M == "commission" {
+		// candidate finding (not in known_findings.json; see proposed_known_findings_c16.json): the signer's validator has
+		// accumulated a commission that is not zero but truncates to zero coins: the native message succeeds paying nothing,
+		// EmitWithdrawValidatorCommissionEvent indexes coins[0] of the empty result and panics
+		for v, op := range []int{-1, ssOp1, ssOp2} {
+			if op == in.Signer && pre.Vals[v].CommDust {
+				return "evm:commission-below-one-unit-panics"
+			}
+		}
+		return ""
+	}
 	if c.Val < 0 || c.Val >= ssNVal {
 		return ""
 	}
@@ -822,11 +835,11 @@ func ssClass(in ssInput, pre ssSnap, r ssResolved) string {
 type ssRouteObs struct {
 	OK     bool       `json:"ok"`
 	Err    string     `json:"err,omitempty"`
-	Val    *ssValSnap `json:"val,omitempty"`    // the call's validator afterwards
-	Shares string     `json:"shares"`           // the signer's delegation shares at it ("" = none)
-	Bal    string     `json:"bal"`              // the signer's balance
-	Supply string     `json:"supply_delta"`     // change of the total supply
-	NEnt   int        `json:"entries"`          // the signer's unbonding entries at it
+	Val    *ssValSnap `json:"val,omitempty"` // the call's validator afterwards
+	Shares string     `json:"shares"`        // the signer's delegation shares at it ("" = none)
+	Bal    string     `json:"bal"`           // the signer's balance
+	Supply string     `json:"supply_delta"`  // change of the total supply
+	NEnt   int        `json:"entries"`       // the signer's unbonding entries at it
 }
 
 type ssObs struct {
@@ -1134,7 +1147,9 @@ func ssCoq(in ssInput, pre ssSnap, r ssResolved, obs ssObs) string {
 }
 
 // ---------------------------------------------------------------- generator
-func ssE15(k int64) *big.Int { return new(big.Int).Mul(big.NewInt(k), big.NewInt(1_000_000_000_000_000)) }
+func ssE15(k int64) *big.Int {
+	return new(big.Int).Mul(big.NewInt(k), big.NewInt(1_000_000_000_000_000))
+}
 
 func ssAmtStr(r *Rng) string {
 	switch r.Intn(10) {
